@@ -24,6 +24,7 @@ func init() {
 			"(R6) core.Apply mutates only its own copy: every map update/delete targets memory derived from base.Copy(…)/change.New.Copy(…), inserted subtrees are copies, and a content map is allocated only when inserting (change.New != nil), never when deleting; a missing parent is an error. " +
 			"(R6 additions) Apply applies every change: no way through an iteration of its loop is without effect, a helper that walks to the parent is followed, and a tree pointer carried across iterations is re-derived when the root is replaced; " +
 			"(R7, shared with C03.R5) Entry.synchronizable — the filter every planned New value passes through — returns the receiver only where there is nothing to filter and otherwise a fresh entry holding exactly the non-nil synchronizable() images of the children, so no unsynchronizable content at any depth can reach the ancestor through a reported result; " +
+			"(R8) Entry.EnsureValid and Archive.EnsureValid — the validators the new ancestor must pass before it is saved — reject for exactly the reasons confirmed on the pinned tree (multiset of deciding conditions; a new reason is a new way for Apply's tree to be refused, a dropped one lets an invalid archive be saved); " +
 			"Not decided: that Apply succeeds for every possible outcome mix (needs reasoning over trees), content of the serialized bytes.",
 		Assumptions: []string{"Entry.Copy(DeepPreservingLeaves) returns fresh directory nodes (C07.R1)"},
 		Run:         runC05,
